@@ -25,6 +25,18 @@ func (f *fixedNet) Config(_ context.Context, c *configx.Provider) *configx.Provi
 	return c
 }
 
+// ctxNet takes the network from the request context (how a multi-tenant embedder uses ONE registry for all its networks)
+type netKey struct{}
+type ctxNet struct{}
+
+func (ctxNet) Network(ctx context.Context, def uuid.UUID) uuid.UUID {
+	if v, ok := ctx.Value(netKey{}).(uuid.UUID); ok {
+		return v
+	}
+	return def
+}
+func (ctxNet) Config(_ context.Context, c *configx.Provider) *configx.Provider { return c }
+
 // newEnvPair: two complete server stacks (registry, routers, gRPC servers) on ONE database, serving different networks
 func newEnvPair(t *testing.T) (*env, *env) {
 	dsn := dbx.GetSqlite(t, dbx.SQLiteMemory)
